@@ -440,6 +440,8 @@ fn faults(s: &mut Stats, names: &[&str], main: &str, files: &[(PathBuf, String)]
                     muts.push(("abc for a number", Some(line.replace(v, "abc")), true));
                     muts.push(("number with a unit that does not exist", Some(line.replace(v, &format!("{}X", v))), true));
                 }
+                // a lone quote as the whole value (what an unterminated empty string looks like)
+                muts.push(("lone quote as value", Some(line.replacen(v, "\"", 1)), true));
                 if v.starts_with('"') {
                     muts.push(("unterminated quote", Some(line.replacen(v, &v[..v.len() - 1], 1)), true));
                     if ["mode", "level", "load_balancer_mode"].contains(&k) {
